@@ -375,8 +375,14 @@ func (s *Syncer) handleRPC(id types.Specifier, stream *gateway.Stream, origin *P
 			return nil
 		}
 		bid := r.Header.ID()
-		if _, ok := s.cm.State(bid); ok {
-			return nil // already seen
+		if known, ok := s.cm.State(bid); ok {
+			// already seen; but if the block is heavier than our tip we are not
+			// on it (e.g. it was validated during a reorg that failed further
+			// up and was rolled back): ask the peer for it again
+			if known.SufficientlyHeavierThan(s.cm.TipState()) {
+				s.resync(origin, "peer relayed a known v2 header that is heavier than our tip")
+			}
+			return nil
 		} else if bid.CmpWork(cs.PoWTarget()) < 0 {
 			return s.ban(origin, errors.New("peer sent v2 header with insufficient work"))
 		} else if r.Header.ParentID != s.cm.Tip().ID {
@@ -408,8 +414,12 @@ func (s *Syncer) handleRPC(id types.Specifier, stream *gateway.Stream, origin *P
 			// NOTE: the outline's ID commits to the parent state; for a parent
 			// that was stored but never applied we only hold a header-derived
 			// state, so the ID (and therefore its work) cannot be judged here.
-			if _, ok := s.cm.State(bid); ok {
-				return nil // already seen
+			if known, ok := s.cm.State(bid); ok {
+				// already seen; see RelayV2Header
+				if known.SufficientlyHeavierThan(s.cm.TipState()) {
+					s.resync(origin, "peer relayed a known v2 outline that is heavier than our tip")
+				}
+				return nil
 			}
 			// block extends a sidechain, which peer (if honest) believes to be the
 			// heaviest chain
